@@ -206,6 +206,37 @@ fn check_policy(req: &DHCPRequest, policy: &config::Policy) -> PolicyMatch {
     outcome
 }
 
+/* The configuration keyword $self4 is stored as the unspecified address, replace it with the
+ * address that the request was received on.
+ */
+fn substitute_self4(
+    value: &dhcppkt::DhcpOptionTypeValue,
+    serverip: std::net::Ipv4Addr,
+) -> dhcppkt::DhcpOptionTypeValue {
+    use dhcppkt::DhcpOptionTypeValue::*;
+    let sub = |ip: &std::net::Ipv4Addr| {
+        if ip.is_unspecified() {
+            serverip
+        } else {
+            *ip
+        }
+    };
+    match value {
+        Ip(ip) => Ip(sub(ip)),
+        IpList(l) => IpList(l.iter().map(sub).collect()),
+        Routes(routes) => Routes(
+            routes
+                .iter()
+                .map(|r| dhcppkt::Route {
+                    prefix: r.prefix,
+                    nexthop: sub(&r.nexthop),
+                })
+                .collect(),
+        ),
+        other => other.clone(),
+    }
+}
+
 fn apply_policy(req: &DHCPRequest, policy: &config::Policy, response: &mut Response) -> bool {
     /* Check if our policy should match.
      */
@@ -248,7 +279,12 @@ fn apply_policy(req: &DHCPRequest, policy: &config::Policy, response: &mut Respo
 
     for (k, v) in &policy.apply_other {
         if pl.contains(k) {
-            response.options.mutate_option(k, v.as_ref());
+            response.options.mutate_option(
+                k,
+                v.as_ref()
+                    .map(|v| substitute_self4(v, req.serverip))
+                    .as_ref(),
+            );
         }
     }
 
